@@ -292,10 +292,9 @@ impl<'a, 'bases, R: Reader> fallible_iterator::FallibleIterator for EhHdrTableIt
 
     fn size_hint(&self) -> (usize, Option<usize>) {
         use core::convert::TryInto;
-        (
-            self.remain.try_into().unwrap_or(0),
-            self.remain.try_into().ok(),
-        )
+        // `remain` comes from the untrusted `fde_count`, and iteration stops early
+        // on an error, so it is only an upper bound.
+        (0, self.remain.try_into().ok())
     }
 
     fn nth(&mut self, n: usize) -> Result<Option<Self::Item>> {
@@ -312,10 +311,9 @@ impl<'a, 'bases, R: Reader> Iterator for EhHdrTableIter<'a, 'bases, R> {
 
     fn size_hint(&self) -> (usize, Option<usize>) {
         use core::convert::TryInto;
-        (
-            self.remain.try_into().unwrap_or(0),
-            self.remain.try_into().ok(),
-        )
+        // `remain` comes from the untrusted `fde_count`, and iteration stops early
+        // on an error, so it is only an upper bound.
+        (0, self.remain.try_into().ok())
     }
 
     fn nth(&mut self, n: usize) -> Option<Self::Item> {
